@@ -98,6 +98,19 @@ def prop_decoder(ctx, case):
     # (2) literal membership
     check_literals(name, a, e, params, txt)
     other = distinct_words(name, seed + 777)
+    # (2b) a parameter rendered as a boolean is the truth value of START word k (not of another word or record)
+    for k, p in enumerate(params[:4]):
+        if p.lower() in ('true', 'false'):
+            for val in (0, 1, 2 ** 40):
+                b = list(a)
+                b[k] = val
+                db = domains.project(name, 1, b)
+                b = [int.from_bytes(db[8 * i:8 * i + 8], 'little') for i in range(4)]
+                eb = [x if x else 7 for x in e]
+                eb[k] = 0 if b[k] else 5
+                pb = TP.split_call(guard(render, name, b, eb, lookups))[1]
+                if k < len(pb) and pb[k].lower() in ('true', 'false') and pb[k].lower() != str(bool(b[k])).lower():
+                    raise Violation(f'wrong-boolean:{name}', f'{name}: parameter {k} shows {pb[k]} for START word {k} = {b[k]} (END word {k} = {eb[k]})')
     # (4a) another parser object saw a START of this call on this thread id and never its END (a dump that ends mid-call)
     if other is not None:
         dangling = EV.new_traces_parser()
